@@ -198,7 +198,7 @@ fn c09_files<A: Subject>(run: &Run, cfg: &Cfg, thorough: bool) {
     }
   }
   // open flags: a read-only open ignores create / truncate / append, create_new on an existing file is refused
-  for (mode, flags) in [(Mode::Map, "truncate"), (Mode::Map, "append"), (Mode::Map, "create"), (Mode::Map, "all"), (Mode::MapCopyRo, "truncate"), (Mode::MapCopyRo, "append"), (Mode::MapCopyRo, "all"), (Mode::MapMut, "create"), (Mode::MapCopy, "create"), (Mode::MapMut, "create_new"), (Mode::MapCopy, "create_new"), (Mode::Map, "create_new")] {
+  for (mode, flags) in [(Mode::Map, "truncate"), (Mode::Map, "append"), (Mode::Map, "create"), (Mode::Map, "all"), (Mode::MapCopyRo, "truncate"), (Mode::MapCopyRo, "append"), (Mode::MapCopyRo, "all"), (Mode::MapMut, "create"), (Mode::MapCopy, "create"), (Mode::MapMut, "create_new"), (Mode::MapCopy, "create_new"), (Mode::Map, "create_new"), (Mode::MapMut, "create+create_new"), (Mode::MapCopy, "create+create_new"), (Mode::Map, "create+create_new")] {
     for (bytes, what) in [(good.clone(), "valid file"), ({ let mut b = good.clone(); b[r0 + 4] ^= 1; b }, "id-byte+4 flipped")] {
       for capo in [CapOpt::Absent, CapOpt::Same] {
         std::fs::write(&p, &bytes).unwrap();
@@ -208,6 +208,7 @@ fn c09_files<A: Subject>(run: &Run, cfg: &Cfg, thorough: bool) {
           "append" => o.with_append(true),
           "create" => o.with_create(true),
           "create_new" => o.with_create_new(true),
+          "create+create_new" => o.with_create(true).with_create_new(true),
           _ => o.with_truncate(true).with_append(true).with_create(true),
         };
         let r = std::panic::catch_unwind(std::panic::AssertUnwindSafe(|| open::<A>(&p, o, mode).map(|a| drop(a))));
@@ -215,7 +216,7 @@ fn c09_files<A: Subject>(run: &Run, cfg: &Cfg, thorough: bool) {
         let after = std::fs::read(&p).unwrap();
         let case = json!({"engine": "c09", "flavour": A::FLAVOUR, "cfg": cfg, "mode": mode, "flags": flags, "what": what});
         let valid = what == "valid file";
-        let want_ok = valid && !(flags == "create_new" && mode.writable());
+        let want_ok = valid && !(flags.ends_with("create_new") && mode.writable());
         let ok = matches!(r, Ok(Ok(())));
         if r.is_err() {
           viol(run, "C09", &format!("open-panicked:flags-{}:{:?}", flags, mode), format!("[{} {:?} flags {}] open of {} panicked", A::FLAVOUR, mode, flags, what), case.clone());
@@ -617,6 +618,28 @@ fn c05_case_t<A: Subject>(run: &Run, cfg: &Cfg, st: &Start, word: &[Op], cut: us
     std::fs::write(&path, &f).unwrap();
   }
   let on_disk = std::fs::read(&path).unwrap();
+  // `create_new` (alone or together with `create`) never opens a file that exists, whatever else is asked
+  if mode.writable() && cut % 2 == 0 {
+    for both in [false, true] {
+      let o = open_opts(cfg, capo, both).with_create_new(true);
+      match open::<A>(&path, o, mode) {
+        Ok(a) => {
+          drop(a);
+          bad("create-new-opened-existing-file", format!("with_create_new(true){} opened the existing file", if both { " + with_create(true)" } else { "" }));
+          let _ = std::fs::remove_file(&path);
+          return true;
+        }
+        Err(_) => {
+          if std::fs::read(&path).unwrap() != on_disk {
+            bad("create-new-altered-existing-file", "a refused create_new open changed the file".into());
+            let _ = std::fs::remove_file(&path);
+            return true;
+          }
+        }
+      }
+      run.eval(1);
+    }
+  }
   // ---- reopen
   // a read-only open takes the free-list kind from the file: the opener's options name another one
   let mut ocfg = *cfg;
@@ -859,7 +882,8 @@ pub fn check_c05(tier: Tier) -> i32 {
         // the `unify` option is irrelevant for files (always unified): alternate it over the cells
         let mut c = Cfg::new(fl, Backend::File, (reserved == 0) != sync, 256 + reserved + 3);
         c.reserved = reserved;
-        c.magic = 9;
+        // magic versions with a zero / non-zero high byte
+        c.magic = if reserved == 0 { 9 } else { 0x0309 };
         items.push((c, sync));
       }
     }
@@ -1208,14 +1232,14 @@ fn c06_concurrent(run: &Run, thorough: bool) {
           if progs[0] == vec![DropPre(0)] && progs[1] == vec![DropPre(0)] {
             progs[1] = vec![DropPre(1)];
           }
-          items.push((Harness { fl, unify: true, min_seg: 8, cap: 256, shape, progs, own_arenas: false, leave: 0, odd: 0 }, if thorough { 4 } else { 3 }));
+          items.push((Harness { fl, unify: true, min_seg: 8, cap: 256, shape, progs, own_arenas: false, leave: 0, odd: 0, reserved: 0 }, if thorough { 4 } else { 3 }));
         }
       }
       // three threads inside operations at the kill
       let tb = if thorough { 2 } else { 1 };
-      items.push((Harness { fl, unify: true, min_seg: 8, cap: 256, shape, progs: vec![vec![B(16)], vec![DropPre(0)], vec![B(24)]], own_arenas: false, leave: 0, odd: 0 }, tb));
-      items.push((Harness { fl, unify: true, min_seg: 8, cap: 256, shape, progs: vec![vec![B(16)], vec![DropPre(0)], vec![Discard]], own_arenas: false, leave: 0, odd: 0 }, tb));
-      items.push((Harness { fl, unify: true, min_seg: 8, cap: 256, shape, progs: vec![vec![B(16), DropOwn], vec![DropPre(0)], vec![DropPre(1)]], own_arenas: false, leave: 0, odd: 0 }, tb));
+      items.push((Harness { fl, unify: true, min_seg: 8, cap: 256, shape, progs: vec![vec![B(16)], vec![DropPre(0)], vec![B(24)]], own_arenas: false, leave: 0, odd: 0, reserved: 0 }, tb));
+      items.push((Harness { fl, unify: true, min_seg: 8, cap: 256, shape, progs: vec![vec![B(16)], vec![DropPre(0)], vec![Discard]], own_arenas: false, leave: 0, odd: 0, reserved: 0 }, tb));
+      items.push((Harness { fl, unify: true, min_seg: 8, cap: 256, shape, progs: vec![vec![B(16), DropOwn], vec![DropPre(0)], vec![DropPre(1)]], own_arenas: false, leave: 0, odd: 0, reserved: 0 }, tb));
     }
   }
   let images = std::sync::atomic::AtomicU64::new(0);
